@@ -507,4 +507,65 @@ def r4_emission(a, tier):
     return rep
 
 
-RULES = [r1_exhaustive, r2_primitives, r3_rule_transfer, r4_emission]
+FORMAT_QUERIES = {'fitsfmt'}  # line-width queries: they choose between two layouts of the same code
+MUTATORS = {'add', 'append', 'extend', 'update', 'pop', 'remove', 'discard', 'clear', 'insert', 'setdefault', 'popitem'}
+
+
+def r5_context_free_emission(a, tier):
+    rep = RuleReport(
+        'C02.R5',
+        'emission is a function of the node: in PythonParserGenerator no branch test (if / conditional expression / while / '
+        'comprehension filter / match guard) of a walk_* or _gen* method reads a generator attribute that is rebound or mutated '
+        'outside __init__ (counters, context stack, anything remembering what was emitted before), and the only generator methods '
+        'called in a test are line-width queries; otherwise the code emitted for a node depends on what was emitted earlier, '
+        'while the model evaluates every node the same way wherever it occurs',
+        floor=10,
+    )
+    gen = a.p.cls(GEN)
+    chain = [c for c in a.ct.mro(GEN) if c in a.p.classes]
+    mutable: dict[str, str] = {}
+    for c in chain:
+        for mname, m in a.p.classes[c].methods.items():
+            if mname == '__init__':
+                continue
+            for n in walk_no_defs(m.node):
+                t = None
+                if isinstance(n, (ast.Assign, ast.AnnAssign, ast.AugAssign)):
+                    for tg in (n.targets if isinstance(n, ast.Assign) else [n.target]):
+                        base = tg.value if isinstance(tg, ast.Subscript) else tg
+                        if isinstance(base, ast.Attribute) and norm(base.value) == 'self':
+                            t = base.attr
+                elif isinstance(n, ast.Call) and isinstance(n.func, ast.Attribute) and n.func.attr in MUTATORS \
+                        and isinstance(n.func.value, ast.Attribute) and norm(n.func.value.value) == 'self':
+                    t = n.func.value.attr
+                if t:
+                    mutable.setdefault(t, m.qualname)
+    rep.notes.append(f'generator attributes rebound or mutated outside __init__: {sorted(mutable)}')
+    for mname, m in gen.methods.items():
+        tests = []
+        for n in walk_no_defs(m.node):
+            if isinstance(n, (ast.If, ast.IfExp, ast.While)):
+                tests.append(n.test)
+            elif isinstance(n, ast.comprehension):
+                tests += n.ifs
+            elif isinstance(n, ast.match_case) and n.guard is not None:
+                tests.append(n.guard)
+            elif isinstance(n, ast.Assert):
+                continue
+        for t in tests:
+            reads = sorted({x.attr for x in ast.walk(t) if isinstance(x, ast.Attribute) and norm(x.value) == 'self' and x.attr in mutable})
+            calls = sorted({x.func.attr for x in ast.walk(t) if isinstance(x, ast.Call) and isinstance(x.func, ast.Attribute)
+                            and norm(x.func.value) == 'self' and x.func.attr not in FORMAT_QUERIES})
+            rep.add({'method': m.qualname, 'test': norm(t)[:80], 'reads_mutable_generator_state': reads, 'calls_generator_methods': calls})
+            for r in reads:
+                rep.fail(m.qualname, f'stateful-test:{r}', f'`{norm(t)[:80]}` decides what {mname} emits from self.{r}, which '
+                         f'{mutable[r].split(".")[-1]}() changes while the grammar is walked: the code generated for a node depends on '
+                         f'what was generated before it (the model parses every occurrence of a node the same way)',
+                         f'{m.module.relpath}:{t.lineno}')
+            for c in calls:
+                rep.fail(m.qualname, f'stateful-call:{c}', f'`{norm(t)[:80]}` decides what {mname} emits by calling self.{c}(), which is '
+                         f'not a reviewed line-width query', f'{m.module.relpath}:{t.lineno}')
+    return rep
+
+
+RULES = [r1_exhaustive, r2_primitives, r3_rule_transfer, r4_emission, r5_context_free_emission]
